@@ -99,9 +99,9 @@ func (s *Struct) Assign(gen Generator, ctx *MethodContext, assignTo *AssignTo, s
 				sourceLift = mapLift
 				stmt = append(stmt, mapStmt...)
 
-				if fieldMapping.Source == "." && sourceID.ParentPointer != nil &&
+				if fieldMapping.Source == "." && nextID.ParentPointer != nil &&
 					def.Source.AssignableTo(source.AsPointer()) {
-					functionCallSourceID = sourceID.ParentPointer
+					functionCallSourceID = nextID.ParentPointer
 					functionCallSourceType = source.AsPointer()
 				} else {
 					functionCallSourceID = nextID
@@ -184,6 +184,9 @@ func mapField(
 			TargetID:   targetField.Name(),
 			TargetType: targetField.Type().String(),
 		})
+		if sourceID.ImplicitPointer {
+			return sourceID.Deref(source.AsPointer()), source, nil, lift, false, nil
+		}
 		return sourceID, source, nil, lift, false, nil
 	}
 
